@@ -254,6 +254,43 @@ def parseLine (s : String) : Except String (Option Item) :=
               | some vs => .ok (some ⟨slot, kind, vs⟩)
     | _ => .error s!"malformed prover message: {s.take 80}"
 
+/-- `a:b]` ↦ `(a, b)` -/
+def rangeOf? (cs : List Char) : Option (Nat × Nat) :=
+  match split1 ':' cs [] with
+  | [a, b] =>
+    match b.reverse with
+    | ']' :: br =>
+      match decNat? a, decNat? br.reverse with
+      | some x, some y => some (x, y)
+      | _, _ => none
+    | _ => none
+  | _ => none
+
+/-- the byte range `[a:b]` a prover message line carries -/
+def lineRange? (s : String) : Option (Nat × Nat) :=
+  match stripPrefix? "P->V[".toList s.toList with
+  | none => none
+  | some rest =>
+    match split2 ':' ' ' rest [] with
+    | rng :: _ => rangeOf? rng
+    | [] => none
+
+/-- The prover messages TILE the proof: the first one starts at byte `next` (0 for a whole file), each one
+    starts where the previous one ended, and every value accounts for 32 bytes.  A removed, duplicated or
+    reordered message line breaks this.  Returns the number of bytes covered. -/
+def tiles : List String → Nat → Except String Nat
+  | [], next => .ok next
+  | s :: rest, next =>
+    match parseLine s with
+    | .error e => .error e
+    | .ok none => tiles rest next
+    | .ok (some it) =>
+      match lineRange? s with
+      | some (a, b) =>
+        if a = next ∧ a + 32 * it.values.length = b then tiles rest b
+        else .error s!"prover messages do not tile the proof at byte {next}: {s.take 80}"
+      | none => .error s!"malformed prover message (range): {s.take 80}"
+
 /-- all prover messages, in stream order -/
 def parseAnnotations (lines : List String) : Except String (List Item) :=
   match mapE parseLine lines with
@@ -565,11 +602,18 @@ def publicInputOf (r : RawFile) (dyn : Option (List Nat)) : Except String Public
 
 /-! ### the conversion -/
 
+/-- one commitment per inner FRI layer: `fri_step_list` has `n` entries, so layers `1 … n-1` are committed -/
+def friCommitCount (nLayers : Nat) (items : List Item) : Except String Unit :=
+  if (items.filter isFriCommit).length + 1 = nLayers then .ok ()
+  else .error "the number of FRI layer commitments is not the number of inner layers"
+
 def convert (r : RawFile) : Except String Stark.Proof := do
   let (consts, dyn) ← layoutOf r
   let cfg ← configOf r consts
   let pi ← publicInputOf r dyn
+  let _ ← tiles r.annotations 0
   let items ← parseAnnotations r.annotations
+  let _ ← friCommitCount r.friStepList.length items
   let u ← unsentOf items
   let w ← witnessOf r.friStepList.length items
   pure ⟨cfg, pi, u, w⟩
